@@ -37,6 +37,9 @@ type ship1Opts struct {
 	roles         []string
 	lateFrames    int      // frames still delivered after the transport was closed
 	noPeerHelloEv bool     // the peer never sends unsolicited hello events (abort, prolongation)
+	// inject, if set, is asked before every peer event: when it returns ok the
+	// frame is delivered at once (a frame that must meet a particular state)
+	inject func(state int) (frame, class string, ok bool)
 	asyncConnErr  float64  // probability of a transport error reported from a second goroutine (the ws write pump)
 	amOrders      []string // order variants of the access-methods exchange (C09)
 	noAmDeviants  bool
@@ -300,6 +303,15 @@ func (s *ship1) peerLoop() {
 		}
 		if ev == s.asyncErrAt {
 			close(s.asyncTrig)
+		}
+		if s.o.inject != nil && !s.tw.isClosed() {
+			if f, class, ok := s.o.inject(int(s.state())); ok {
+				s.mu.Lock()
+				s.devClasses[class]++
+				s.mu.Unlock()
+				s.deliver(f, "dev:"+class)
+				continue
+			}
 		}
 		if s.tw.isClosed() || errReported {
 			// the transport is gone: the pump may still hand over a few frames it
